@@ -180,6 +180,9 @@ class Run:
             m.expire(t, inclusive=False)
             m.apply(t, self.pos, a)
             self.pos += 1
+        # a deadline that lies one resolution ahead of T to within rounding is run by the loop either in the iteration
+        # that just ended or in the next one (its test is when < time() + resolution in floating point): not judged
+        band = {k for k, v in m.live.items() if v["deadline"] != math.inf and abs(v["deadline"] - (T + RES)) <= RES}
         m.expire(T, inclusive=True)
         for reg, f in REGS.items():
             if reg not in m.registered:
@@ -192,6 +195,8 @@ class Run:
                 for svc in SERVICES.values():
                     self.stats["idle_truth_checks"] += 1
                     key = (src, svc)
+                    if key in band:
+                        continue
                     lv = m.live.get(key)
                     le = latest.get(key)
                     if le is not None and le[2] == "offered" and lv is None:
@@ -276,7 +281,7 @@ class Builder:
         if d is None:
             return None
         return {"d-eps": (d - EPS, BEFORE), "d:before": (d, BEFORE), "d:after": (d, AFTER), "d+eps": (d + EPS, BEFORE),
-                "d:after+1": (d, AFTER)}[placement]
+                "d:after+1": (d, AFTER), "d-res": (d - RES / 2, BEFORE)}[placement]
 
     def add(self, action, placement):
         p = self.place(placement)
@@ -411,7 +416,7 @@ def random_history(rng):
         else:
             reg = rng.choice(list(REGS))
             a = dict(kind="unwatch" if reg in b.regs else "watch", reg=reg)
-        pl = rng.choice(("new", "new", "same", "same", "same+1", "same+2", "d-eps", "d:before", "d:after", "d:after+1", "d+eps"))
+        pl = rng.choice(("new", "new", "same", "same", "same+1", "same+2", "d-eps", "d:before", "d:after", "d:after+1", "d+eps", "d-res"))
         if b.add(a, pl):
             seq.append((a["kind"], pl))
     return init, b, tuple(seq)
@@ -448,6 +453,8 @@ def count_placements(ctx, seq):
             ctx.count("deadline_after_placements")
         elif pl in ("d-eps", "d+eps"):
             ctx.count("adjacent_iteration_placements")
+        elif pl == "d-res":
+            ctx.count("within_resolution_before_deadline_placements")
 
 
 def shards(tier, seed):
